@@ -87,6 +87,8 @@ Check(e) ==
     [] e.op = "block" -> LET blk == PBlock(HX(e.hex)).v IN e.root_ok = RootOK(blk) /\ e.commit_ok = CommitOK(blk)
     [] e.op = "filter" -> FilterOK(e)
     [] e.op = "match" -> e.out = MatchBasic(HX(e.hash), e.n, HX(e.bytes), HX(e.element))
+    \* BIP158 match-any: a set of queries matches exactly when one of them does, in whatever order and number they are asked
+    [] e.op = "match_any" -> e.out = (\E k \in 1..Len(e.elements) : MatchBasic(HX(e.hash), e.n, HX(e.bytes), HX(e.elements[k])))
     [] e.op = "decode" -> LET d == Decode(HX(e.bytes), e.n, BasicP, BasicM) IN
                              IF d[1] = "refused" THEN e.refused ELSE ~e.refused /\ NatHexs(e.out) = d[2]
     [] e.op = "bits" -> LET b == HX(e.bits)  t == TargetFromBits(b) IN
@@ -111,6 +113,7 @@ Diag == i > 0 => PrintT(<<"DIAG", i, <<Trace[i].op,
                     [] Trace[i].op = "next" -> NextBits(HX(Trace[i].bits), Trace[i].timespan, HX(Trace[i].limit))
                     [] Trace[i].op = "cmpct" -> CmpctExpected(Trace[i])
                     [] Trace[i].op = "fill" -> FillExpected(Trace[i])
+                    [] Trace[i].op = "match_any" -> {k \in 1..Len(Trace[i].elements) : MatchBasic(HX(Trace[i].hash), Trace[i].n, HX(Trace[i].bytes), HX(Trace[i].elements[k]))}
                     [] Trace[i].op = "match" -> MatchBasic(HX(Trace[i].hash), Trace[i].n, HX(Trace[i].bytes), HX(Trace[i].element))
                     [] Trace[i].op = "decode" -> Decode(HX(Trace[i].bytes), Trace[i].n, BasicP, BasicM)
                     [] OTHER -> "-">>>>)
